@@ -32,6 +32,12 @@ CHECKS = {
     "C17": dict(cat="translation_validation", tech="symbolic execution of the FMM glue (fmm_assembler, exafmm interface, near-field helpers, map_to_points) with a fake exact-summation exafmm and an uninterpreted kernel family vs the dense assembler; polynomial identities with UFs (cvc5/z3) + NRA kernel lemmas",
                 text="For a symbolic vector and free geometry the FMM-mode matvec equals the dense-mode matvec row by row for scalar, hypersingular and Maxwell electric-field operators (whole-grid, boundary-dof and segment spaces) and scalar potentials, with the far field replaced by exact summation (both through a fake exafmm and through the library's own dense_evaluation switch); the kernel relations used to couple both paths are proved for the real kernels.",
                 ref="3/C17"),
+    "C18": dict(cat="model_checking", tech="bounded exploration of API-call histories on the real code with symbolic parameter tokens; per history an LIA validity query (z3/cvc5) that every quadrature/FMM setting reaching the numerics is the operator's own",
+                text="All histories of <= 2 (3 thorough) events from 7 kinds x 2 placements of the operator's creation x 7 observed operation kinds (791 quick) are executed; for each the solver decides, for ALL parameter values, whether a setting other than the explicit parameter object's can reach a rule lookup or a cached FMM interface. Two genuine defects surfaced: one repaired (FMM ignored explicit parameters), one listed as a known finding (grid-function projections use the space-cached, globally parameterised mass matrix).",
+                ref="3/C18"),
+    "C19": dict(cat="other", tech="path exploration of io.export / io.import_grid with symbolic domain indices (z3 LIA) and symbolic coefficients (polynomial / NRA claims), meshio as an in-memory contract stub; replays through real meshio files",
+                text="Bounded symbolic verification: for 3 elements with arbitrary domain indices in [0,2^31) every path of the Gmsh tag logic is explored (ASCII and binary) and the imported indices, vertices and elements are proved equal to the exported ones; exported node/element data equal the requested transformation of evaluate_on_vertices / evaluate_on_element_centers for all real/complex coefficients (7 transformations). One genuine defect is listed as a known finding (all-zero indices), one was repaired.",
+                ref="3/C19"),
     "C20": dict(cat="translation_validation", tech="LLVM-IR (clang on the current OpenCL headers) symbolic interpreter vs symbolic execution of the Numba kernels; per-lane equivalence queries in QF_NRA with abstracted sqrt/exp/cos/sin + congruence (z3/cvc5)",
                 text="Translation validation of two hand translations of the same formulas: every OpenCL kernel variant (14 kernels x 4 widths x 2 precisions) and the 4 shapeset headers are proved equal, lane by lane and path by path, to the Numba function the selection tables pair them with, for all real inputs with distinct points.",
                 ref="3/C20"),
